@@ -72,7 +72,7 @@ def natToDecAux : Nat → Nat → Bytes → Bytes
   | fuel + 1, n, acc =>
     let acc' := (48 + (n % 10).toUInt8) :: acc
     if n / 10 = 0 then acc' else natToDecAux fuel (n / 10) acc'
-def natToDec (n : Nat) : Bytes := natToDecAux 21 n []
+def natToDec (n : Nat) : Bytes := natToDecAux (n + 1) n []
 
 /-- first index of a byte -/
 def findByte (b : UInt8) (s : Bytes) : Option Nat := s.idxOf? b
